@@ -628,14 +628,19 @@ fn pipelines(h: &H, idx: u64, rng: &mut Rng) {
         "stack push=1,2 | stack roll=3,1 | stack pop=1,2",
         "geo:in | gridshift grids=test.datum | utm zone=32 | neu:out",
         "gridshift grids=test.datum,@null | tmerc lon_0=11",
+        "addone | curvature prime | addone",
+        "addone | gravity grs80 | noop",
+        "noop | oneway:m | addone",
     ];
     let def = *rng.pick(&defs);
     let mut ctx = Plain::new();
+    ctx.register_resource("oneway:m", "addone | curvature mean");
     let Ok(op) = ctx.op(def) else {
         v(h, idx, "pipeline-instantiation-failed", J::obj().set("definition", def));
         return;
     };
     h.distinct(mix(hash_str(def), idx));
+    let one_way_step = def.contains("curvature") || def.contains("gravity") || def.contains("oneway:");
     let n = 1 + rng.below(5);
     let geo_in = def.starts_with("geo:in");
     let set: Vec<Coor4D> = (0..n)
@@ -680,6 +685,15 @@ fn pipelines(h: &H, idx: u64, rng: &mut Rng) {
         if c != usize::MAX && c > n {
             v(h, idx, &format!("count-exceeds-set-size/pipeline/{}", d.name()), J::obj().set("definition", def).set("count", c).set("size", n));
             return;
+        }
+        // a step without an inverse reports zero when asked for it, and the pipeline the minimum
+        if one_way_step && d == D::I {
+            h.class("pipeline/one-way-step-inverse");
+            if c != 0 {
+                v(h, idx, "pipeline-with-a-one-way-step-reports-successes-inverse", J::obj().set("definition", def).set("count", c).set("size", n));
+                return;
+            }
+            continue;
         }
         // the pipeline count is at most the number of tuples that look valid at the end
         let valid = data.iter().filter(|t| !any_nan(&t.0)).count();
